@@ -81,8 +81,16 @@ class Parser(Emitter):
             if new_value is not None:
                 result['value'] = new_value
 
-        self.emit('callFunction', name, args, valsetter)
+        self._notify('callFunction', name, args, valsetter)
         return self._canonical(result['value'])
+
+    def _notify(self, event, *args):
+        try:
+            self.emit(event, *args)
+        except SyntaxError as e:
+            # ply takes a SyntaxError raised inside a grammar action for a request for error
+            # recovery: the reference would silently evaluate to a blank (NOPE+1 = 1)
+            raise formulaserror.from_message(e)
 
     def set_variable(self, name, v):
         self.variables[name] = v
@@ -99,7 +107,7 @@ class Parser(Emitter):
         def valsetter(new_value):
             if new_value is not None:
                 result['value'] = new_value
-        self.emit('callVariable', name, valsetter)
+        self._notify('callVariable', name, valsetter)
         if result['value'] is not_found:
             raise formulaserror.NAME
         return self._canonical(result['value'])
@@ -113,7 +121,7 @@ class Parser(Emitter):
             if new_value is not None:
                 result['value'] = new_value
 
-        self.emit('callCellValue', Cell(label, row, col), valsetter)
+        self._notify('callCellValue', Cell(label, row, col), valsetter)
         return self._canonical(result['value'])
 
     def call_range_value(self, start_label, end_label):
@@ -151,7 +159,7 @@ class Parser(Emitter):
             if new_value is not None:
                 result['value'] = new_value
 
-        self.emit('callRangeValue', start_cell, end_cell, valsetter)
+        self._notify('callRangeValue', start_cell, end_cell, valsetter)
         return self._canonical(result['value'])
 
     def _throw_error(self, error_name):
